@@ -179,6 +179,9 @@ def detect_aligned():
 # (2) general oracle
 # ---------------------------------------------------------------------------
 
+ROLLED = '<rolled-up initial>'
+
+
 def track(sig0, muts):
     """follow every original (model, field) through the sequence; returns
     ({(model, field): (final_model, final_field) or None}, added fields with their declared
@@ -227,9 +230,14 @@ def track(sig0, muts):
         elif t == 'ChangeField':
             a = dict(mj['attrs'])
             if a.get('null') == 'false' and mj.get('initial') is not None:
-                notnull[(mj['model'], mj['field'])] = mj['initial']
-            if (mj['model'], mj['field']) in added and mj.get('initial') is not None:
-                added[(mj['model'], mj['field'])] = None   # rolled-up initial: C03's finding F21, not judged here
+                # NULLs are replaced by the FIRST change that makes the column NOT NULL; after that the
+                # column has no NULLs left, whatever later changes say
+                msig = cur.get_app_sig('vapp').get_model_sig(mj['model'])
+                fsig = msig.get_field_sig(mj['field']) if msig is not None else None
+                if fsig is not None and fsig.get_attr_value('null'):
+                    notnull.setdefault((mj['model'], mj['field']), mj['initial'])
+            if (mj['model'], mj['field']) in added and mj.get('initial') is not None and a.get('null') == 'false':
+                added[(mj['model'], mj['field'])] = ROLLED   # rolled-up initial: C03's finding F21, not judged here
         r = sigs.real_simulate(cur, 'vapp', [sigs.real_mutation(mj)])
         cur = r[1]
     return loc, added, notnull, cur
@@ -298,6 +306,10 @@ def judge_rows(sig0, muts, before, after):
         if set(rows0) != set(rows1):
             problems.append('table %s -> %s gained or lost rows' % (t0, t1))
             continue
+        if rows1 and not any(c1 in r for r in rows1.values()):
+            # the table has no column of the expected name: a schema difference (C01 / C03 judge it, see
+            # finding F56), not a statement about the values stored in that column
+            continue
         nn = notnull.get(dest)
         for pk, r0 in rows0.items():
             v0, v1 = sval(r0.get(c0)), sval(rows1[pk].get(c1))
@@ -310,6 +322,8 @@ def judge_rows(sig0, muts, before, after):
     for (model, field), init in added.items():
         d = table_and_column(final, model, field)
         if d is None or d[0] not in after:
+            continue
+        if init == ROLLED:
             continue
         want = None if init is None else sval(json.loads(init))
         if init is None and (model, field) in notnull:
